@@ -27,7 +27,7 @@ from core import lean
 CFG1 = {"processes": 1, "maxchunksperchild": 0, "maxtasksperchunk": 0}
 # "every byte offset": a byte range with a pad whose length is 3*log2(size) so that every halving step of
 # the shrinker yields a strictly shorter case (the engine only accepts shorter canonical JSON)
-ALL = [["kr", 0, (1 << 20) - 1, "x" * 60]]
+ALL = [["kr", 0, (1 << 13) - 1, "x" * 39]]
 
 
 # ------------------------------------------------------------------ building and running
@@ -268,7 +268,7 @@ class C02(Property):
     id = "C02"
     prop_modules = ["CobaVerif.Props.C02"]
     quick_n = 420
-    thorough_n = 10000
+    thorough_n = 6000
     search_n = 160
     case_timeout = 120
     workers = 8
@@ -641,6 +641,8 @@ class C02(Property):
                 pad = "x" * (3 * max(0, (mid - lo + 1).bit_length() - 1))
                 yield dict(case, cuts=[["kr", lo, mid, pad]])
                 yield dict(case, cuts=[["kr", mid + 1, hi, pad]])
+                if hi - lo > 64:
+                    return      # narrow the (expensive) byte range first, then shrink the rest of the case
         if cuts != "all" and len(cuts) > 1:
             for c in cuts:
                 yield dict(case, cuts=[c])
